@@ -6,24 +6,31 @@ src/psyclone/psyir/symbols/symbol_table.py, the `copy` methods of the symbol cla
 Objects are identities: a node is a natural-number label (its `id`), a symbol likewise; names and node classes are numbers too.  The *world* is
 the Python heap as far as copying is concerned:
 
-* a symbol store: `name s` (the symbol's name) and `deps s` (the symbols its datatype and initial
-  value refer to: kind parameter, References inside array bounds, derived-type symbol, References
-  in the initial-value expression; for a `DataTypeSymbol` with a `StructureType` the kinds, bounds
-  and default initialisers of its components).  The expression NODES inside datatypes have no
-  identity in the model: that the copy gets its own is checked on the real objects by the harness,
+* a symbol store: `name s` (the symbol's name), `links s` (the symbols its declaration refers to
+  directly: kind parameter of a scalar type, derived-type symbol, container of an import, routines
+  of a generic interface; for a `StructureType` those of its components), `bounds s` (the
+  expression NODES held by its datatype object: array bounds, default initialisers of the
+  components of a `StructureType`; a forest of nodes with identities, `sym` = `Reference.symbol`,
+  `tsym` = kind of a `Literal`) and `init s` (the nodes of `DataSymbol.initial_value`);
+  `deps s` is all the symbols reached that way,
 * a list of detached trees.  A tree is a first-child/next-sibling `Forest` whose nodes carry their
   identity, class (`kind`), `sym` (`Reference.symbol`, `Loop.variable`, `Routine.return_symbol`),
   `tsym` (the symbol used by the node's own datatype: the kind parameter of a `Literal`) and, for a
   `ScopingNode`, the ordered list of the symbols of its `SymbolTable`.
 
-`copy fixed W r` is `W.find(r).copy()`: new node identities for the whole subtree, new symbol
+`copy m W r` is `W.find(r).copy()`: new node identities for the whole subtree, new symbol
 identities for every symbol of every symbol table inside the subtree, `sym` re-pointed to the new
 symbol when the symbol belongs to a copied table and left alone otherwise (outer-scope symbols).
-The flag says what happens to the symbols reached through *datatypes* (`tsym`, `deps`):
-`fixed = true` (the code with fixes/C15-deepcopy-datatype-refs.patch) re-points them like `sym`;
-`fixed = false` (the pinned code) leaves them pointing at the symbols of the original because
-`TypedSymbol.copy` passes the same datatype object on and `_refine_copy` only walks `Reference`
-and `Loop` nodes.  `deployed` is the mode the check compares the real code with.
+The mode `m` says which repairs are in the code:
+* `m.dt` (the `fix:` commit from fixes/C15-deepcopy-datatype-refs.patch): the symbols reached
+  through *datatypes* (`tsym`, `links`, the expression nodes in `bounds` and `init`) are re-pointed
+  like `sym`, and the datatype objects are re-created so that the copy owns its expression nodes.
+  Without it they keep pointing at the symbols of the original (`TypedSymbol.copy` passes the same
+  datatype object on — its expression nodes are then SHARED —, `DataSymbol.copy` copies the
+  initial value without re-pointing it, `_refine_copy` only walks `Reference` and `Loop` nodes).
+* `m.ifc` (fixes/C15-deepcopy-interfaces.patch): `deep_copy` gives every copied symbol a copy of
+  its interface object.  Without it see `freshIface`.
+`deployed` is the mode the check compares the real code with.
 
 Interface objects (`symbol.interface`) are identities too: `TypedSymbol.copy`, `DataSymbol.copy`,
 `RoutineSymbol.copy`, `DataTypeSymbol.copy` and `GenericInterfaceSymbol.copy` hand the interface
@@ -46,6 +53,10 @@ structure NodeRec where
   tsym : Option Nat
   /-- `some l`: a `ScopingNode` whose symbol table holds the symbols `l` (in order) -/
   table : Option (List Nat)
+  /-- identity of a mutable helper object that the node holds and that `copy.copy` hands on to the
+  copy because `_refine_copy` does not refine it (`Kern._arguments`, `CodedKern._opencl_options`
+  of the PSyKAl layers; no node of the generic PSyIR holds one that the writer reads) -/
+  attr : Option Nat
   deriving DecidableEq, Repr
 
 /-- first-child / next-sibling forest: `cons n kids rest` is node `n` with children `kids`,
@@ -55,9 +66,22 @@ inductive Forest where
   | cons (n : NodeRec) (kids : Forest) (rest : Forest)
   deriving DecidableEq, Repr
 
+/-- which repairs the modelled code contains -/
+structure Mode where
+  /-- datatype links and expressions are re-pointed and owned by the copy -/
+  dt : Bool
+  /-- `deep_copy` copies the interface objects -/
+  ifc : Bool
+  deriving DecidableEq, Repr
+
 structure World where
   name : Nat → Nat
-  deps : Nat → List Nat
+  /-- direct symbol links of a declaration (precision symbol, type symbol, import container …) -/
+  links : Nat → List Nat
+  /-- expression nodes held by the datatype object of a symbol -/
+  bounds : Nat → Forest
+  /-- expression nodes of the initial value of a symbol -/
+  init : Nat → Forest
   /-- the interface OBJECT of a symbol (`symbol.interface`, an identity) -/
   iface : Nat → Nat
   /-- does `symbol.copy()` create a new interface object?  True for generic `Symbol`s and
@@ -67,6 +91,8 @@ structure World where
   freshIface : Nat → Bool
   /-- the mutable attribute of an interface object (`ArgumentInterface.access`, …) -/
   access : Nat → Nat
+  /-- the state of the helper objects held by nodes (`NodeRec.attr`) -/
+  attrVal : Nat → Nat
   /-- all symbol identities in use are `< nsym` -/
   nsym : Nat
   /-- all interface identities in use are `< nif` -/
@@ -104,6 +130,11 @@ def Forest.syms : Forest → List Nat
   | .nil => []
   | .cons n k r => n.sym.toList ++ (k.syms ++ r.syms)
 
+/-- the helper objects held by the nodes -/
+def Forest.attrs : Forest → List Nat
+  | .nil => []
+  | .cons n k r => n.attr.toList ++ (k.attrs ++ r.attrs)
+
 /-- the symbols reached from the nodes through their datatype -/
 def Forest.tsyms : Forest → List Nat
   | .nil => []
@@ -125,6 +156,17 @@ def findIn (r : Nat) : List Forest → Forest
     | .nil => findIn r ts
     | s => s
 
+/-- the symbols used by an expression forest -/
+def Forest.uses (F : Forest) : List Nat := F.syms ++ F.tsyms
+
+/-- every symbol that the declaration of `s` refers to -/
+def World.deps (W : World) (s : Nat) : List Nat :=
+  W.links s ++ ((W.bounds s).uses ++ (W.init s).uses)
+
+/-- the identities of the expression nodes that belong to the declarations of the symbols `l` -/
+def World.declIds (W : World) (l : List Nat) : List Nat :=
+  l.flatMap (fun s => (W.bounds s).ids ++ (W.init s).ids)
+
 /-- every symbol whose *name* the written code of the forest depends on -/
 def reads (W : World) (F : Forest) : List Nat :=
   F.syms ++ F.tsyms ++ F.owned ++ F.owned.flatMap W.deps
@@ -135,11 +177,30 @@ def reads (W : World) (F : Forest) : List Nat :=
 *names* of the symbols the nodes use, and for every scope the declarations of its table: name of
 each symbol and names of the symbols its datatype/initial value use.  No identities. -/
 
+/-- what is visible of an expression node: class, names used, number of nodes below it -/
+structure VExpr where
+  kind : Nat
+  sym : Option Nat
+  tsym : Option Nat
+  size : Nat
+  deriving DecidableEq, Repr
+
+/-- what is visible of a declaration: name, names of the linked symbols, datatype expressions,
+initial value, access of the interface -/
+structure VDecl where
+  name : Nat
+  links : List Nat
+  bounds : List VExpr
+  init : List VExpr
+  access : Nat
+  deriving DecidableEq, Repr
+
 structure VNode where
   kind : Nat
   sym : Option Nat
   tsym : Option Nat
-  table : Option (List (Nat × List Nat × Nat))
+  table : Option (List VDecl)
+  attr : Option Nat
   deriving DecidableEq, Repr
 
 inductive VForest where
@@ -147,11 +208,20 @@ inductive VForest where
   | cons (v : VNode) (kids : VForest) (rest : VForest)
   deriving DecidableEq, Repr
 
+/-- the view of an expression forest: pre-order list of (class, names used, number of nodes of the
+subtree) — identity-free and shape-preserving -/
+def viewE (name : Nat → Nat) : Forest → List VExpr
+  | .nil => []
+  | .cons n k r => ⟨n.kind, n.sym.map name, n.tsym.map name, (viewE name k).length⟩ :: (viewE name k ++ viewE name r)
+
 def viewNode (W : World) (n : NodeRec) : VNode :=
   { kind := n.kind
     sym := n.sym.map W.name
     tsym := n.tsym.map W.name
-    table := n.table.map (fun l => l.map (fun s => (W.name s, (W.deps s).map W.name, W.access (W.iface s)))) }
+    table := n.table.map (fun l => l.map (fun s =>
+      ⟨W.name s, (W.links s).map W.name, viewE W.name (W.bounds s), viewE W.name (W.init s),
+       W.access (W.iface s)⟩))
+    attr := n.attr.map W.attrVal }
 
 def view (W : World) : Forest → VForest
   | .nil => .nil
@@ -172,37 +242,60 @@ def copyNode (fixed : Bool) (own : List Nat) (noff soff : Nat) (n : NodeRec) : N
     kind := n.kind
     sym := n.sym.map (rho own soff)
     tsym := n.tsym.map (rhoT fixed own soff)
-    table := n.table.map (fun l => l.map (rho own soff)) }
+    table := n.table.map (fun l => l.map (rho own soff))
+    -- `copy.copy`: the same helper object
+    attr := n.attr }
+
+/-- copy of an expression node inside a declaration -/
+def copyENode (fixed : Bool) (own : List Nat) (noff soff : Nat) (n : NodeRec) : NodeRec :=
+  { id := n.id + noff
+    kind := n.kind
+    sym := n.sym.map (rhoT fixed own soff)
+    tsym := n.tsym.map (rhoT fixed own soff)
+    table := n.table
+    attr := n.attr }
 
 /-- is `x` the identity given to the copy of a symbol of `own`? -/
 def isNew (own : List Nat) (off : Nat) (x : Nat) : Bool :=
   decide (off ≤ x) && own.contains (x - off)
 
 /-- the copied subtree -/
-def copyTree (fixed : Bool) (W : World) (r : Nat) : Forest :=
+def copyTree (m : Mode) (W : World) (r : Nat) : Forest :=
   let S := findIn r W.trees
-  S.map (copyNode fixed S.owned W.nnode W.nsym)
+  S.map (copyNode m.dt S.owned W.nnode W.nsym)
+
+/-- does the copy of symbol `s` get an interface object of its own? -/
+def ownIface (m : Mode) (W : World) (s : Nat) : Bool := m.ifc || W.freshIface s
 
 /-- `findIn r W.trees` `.copy()`; the copy becomes a new detached tree -/
-def copy (fixed : Bool) (W : World) (r : Nat) : World :=
+def copy (m : Mode) (W : World) (r : Nat) : World :=
   let own := (findIn r W.trees).owned
   { name := fun x => if isNew own W.nsym x then W.name (x - W.nsym) else W.name x
-    deps := fun x => if isNew own W.nsym x then (W.deps (x - W.nsym)).map (rhoT fixed own W.nsym)
-                     else W.deps x
+    links := fun x => if isNew own W.nsym x then (W.links (x - W.nsym)).map (rhoT m.dt own W.nsym)
+                      else W.links x
+    -- unrepaired: the very datatype object of the original, hence its expression nodes
+    bounds := fun x => if isNew own W.nsym x then
+                         (if m.dt then (W.bounds (x - W.nsym)).map (copyENode true own W.nnode W.nsym)
+                          else W.bounds (x - W.nsym))
+                       else W.bounds x
+    -- `DataSymbol.copy` copies the initial value; only the repaired code re-points it
+    init := fun x => if isNew own W.nsym x then (W.init (x - W.nsym)).map (copyENode m.dt own W.nnode W.nsym)
+                     else W.init x
     iface := fun x => if isNew own W.nsym x then
-                        (if W.freshIface (x - W.nsym) then W.iface (x - W.nsym) + W.nif
+                        (if ownIface m W (x - W.nsym) then W.iface (x - W.nsym) + W.nif
                          else W.iface (x - W.nsym))
                       else W.iface x
     freshIface := fun x => if isNew own W.nsym x then W.freshIface (x - W.nsym) else W.freshIface x
-    access := fun i => if decide (W.nif ≤ i) && own.any (fun s => W.freshIface s && W.iface s == i - W.nif)
+    access := fun i => if decide (W.nif ≤ i) && own.any (fun s => ownIface m W s && W.iface s == i - W.nif)
                        then W.access (i - W.nif) else W.access i
+    attrVal := W.attrVal
     nsym := W.nsym + W.nsym
     nif := W.nif + W.nif
     nnode := W.nnode + W.nnode
-    trees := W.trees ++ [copyTree fixed W r] }
+    trees := W.trees ++ [copyTree m W r] }
 
 /-- the mode of the model that the check compares the real code with -/
-def deployed : Bool := true
+def deployed : Mode := ⟨true, true⟩
 
 /-! ## edits (addressed by identity) -/
 
@@ -237,18 +330,26 @@ inductive Edit where
   /-- `p.symbol_table.rename_symbol(s, n)`: the symbol object gets the new name and is re-inserted
   at the end of the table of `p` -/
   | rename (p : Nat) (s : Nat) (n : Nat)
-  /-- `s.datatype = …` / `s.initial_value = …`: the symbols used become `ds` -/
-  | setDeps (s : Nat) (ds : List Nat)
-  /-- `p.symbol_table.new_symbol(n, …)` with datatype dependencies `ds`; the symbol gets a new
-  interface object; `fr` = its class copies the interface in `copy()` -/
-  | addSym (p : Nat) (n : Nat) (ds : List Nat) (fr : Bool)
+  /-- `s.datatype = …` / `s.initial_value = …` / `s.specialise(…)`: the declaration of `s` now has
+  the links `ls`, the datatype expressions `bs` and the initial value `ini` (new node objects) -/
+  | setDecl (s : Nat) (ls : List Nat) (bs ini : Forest)
+  /-- `p.symbol_table.new_symbol(n, …)` with that declaration; the symbol gets a new interface
+  object; `fr` = its class copies the interface in `copy()` -/
+  | addSym (p : Nat) (n : Nat) (ls : List Nat) (bs ini : Forest) (fr : Bool)
+  /-- `s.interface = <new interface object with access v>` -/
+  | setIface (s : Nat) (v : Nat)
+  /-- `s.specialise(cls)`: the class of the symbol, hence how its `copy()` treats the interface -/
+  | setFresh (s : Nat) (b : Bool)
   /-- `symbol.interface.access = v` for the interface object `i` -/
   | setAccess (i : Nat) (v : Nat)
+  /-- a change of the state of the helper object `a` (`kern.set_opencl_options(…)`,
+  `kern.arguments.args[i].access = …`) -/
+  | setAttr (a : Nat) (v : Nat)
   /-- `p.symbol_table.remove(s)` -/
   | removeSym (p : Nat) (s : Nat)
-  /-- `p.symbol = s` -/
+  /-- `p.symbol = s`; `p` may be a node of a tree or an expression node inside a declaration -/
   | setSym (p : Nat) (s : Option Nat)
-  /-- the datatype of node `p` now uses `s` -/
+  /-- the datatype of node `p` now uses `s` (no public setter exists for `Literal.datatype`) -/
   | setTSym (p : Nat) (s : Option Nat)
   /-- `x.detach()` (also `pop`, `del`, `remove` of a child): `x` becomes a detached tree -/
   | detach (x : Nat)
@@ -257,19 +358,38 @@ inductive Edit where
 
 def mapTrees (W : World) (f : Forest → Forest) : World := { W with trees := W.trees.map f }
 
+/-- an edit of the attributes of the node with identity `p`, wherever that node object is: in a
+tree or inside the declaration of a symbol -/
+def mapNodes (W : World) (p : Nat) (g : NodeRec → NodeRec) : World :=
+  { W with trees := W.trees.map (Forest.map (updNode p g))
+           bounds := fun x => (W.bounds x).map (updNode p g)
+           init := fun x => (W.init x).map (updNode p g) }
+
 def apply (W : World) : Edit → World
   | .rename p s n =>
     { W with name := fun x => if x = s then n else W.name x
              trees := W.trees.map (Forest.map (updNode p fun m =>
                { m with table := m.table.map (fun l => if l.contains s then l.erase s ++ [s] else l) })) }
-  | .setDeps s ds => { W with deps := fun x => if x = s then ds else W.deps x }
+  | .setDecl s ls bs ini =>
+    { W with links := fun x => if x = s then ls else W.links x
+             bounds := fun x => if x = s then bs else W.bounds x
+             init := fun x => if x = s then ini else W.init x }
+  | .setIface s v =>
+    { W with iface := fun x => if x = s then W.nif else W.iface x
+             access := fun i => if i = W.nif then v else W.access i
+             nif := W.nif + 1 }
+  | .setFresh s b => { W with freshIface := fun x => if x = s then b else W.freshIface x }
   | .setAccess i v => { W with access := fun x => if x = i then v else W.access x }
-  | .addSym p n ds fr =>
+  | .setAttr a v => { W with attrVal := fun x => if x = a then v else W.attrVal x }
+  | .addSym p n ls bs ini fr =>
     { name := fun x => if x = W.nsym then n else W.name x
-      deps := fun x => if x = W.nsym then ds else W.deps x
+      links := fun x => if x = W.nsym then ls else W.links x
+      bounds := fun x => if x = W.nsym then bs else W.bounds x
+      init := fun x => if x = W.nsym then ini else W.init x
       iface := fun x => if x = W.nsym then W.nif else W.iface x
       freshIface := fun x => if x = W.nsym then fr else W.freshIface x
       access := W.access
+      attrVal := W.attrVal
       nsym := W.nsym + 1
       nif := W.nif + 1
       nnode := W.nnode
@@ -277,8 +397,8 @@ def apply (W : World) : Edit → World
         { m with table := m.table.map (· ++ [W.nsym]) })) }
   | .removeSym p s =>
     mapTrees W (Forest.map (updNode p fun m => { m with table := m.table.map (·.erase s) }))
-  | .setSym p s => mapTrees W (Forest.map (updNode p fun m => { m with sym := s }))
-  | .setTSym p s => mapTrees W (Forest.map (updNode p fun m => { m with tsym := s }))
+  | .setSym p s => mapNodes W p fun m => { m with sym := s }
+  | .setTSym p s => mapNodes W p fun m => { m with tsym := s }
   | .detach x =>
     if isRoot x W.trees then W
     else { W with trees := W.trees.map (Forest.remove x) ++ [findIn x W.trees] }
@@ -294,9 +414,12 @@ def run (W : World) (es : List Edit) : World := es.foldl apply W
 /-- the node identities an edit addresses -/
 def Edit.nodes : Edit → List Nat
   | .rename p _ _ => [p]
-  | .setDeps _ _ => []
-  | .addSym p _ _ _ => [p]
+  | .setDecl _ _ _ _ => []
+  | .setIface _ _ => []
+  | .setFresh _ _ => []
+  | .addSym p _ _ _ _ _ => [p]
   | .setAccess _ _ => []
+  | .setAttr _ _ => []
   | .removeSym p _ => [p]
   | .setSym p _ => [p]
   | .setTSym p _ => [p]
@@ -306,12 +429,18 @@ def Edit.nodes : Edit → List Nat
 /-- the existing symbols whose name or datatype an edit changes -/
 def Edit.symbols : Edit → List Nat
   | .rename _ s _ => [s]
-  | .setDeps s _ => [s]
+  | .setDecl s _ _ _ => [s]
+  | .setIface s _ => [s]
   | _ => []
 
 /-- the interface objects whose attribute an edit changes -/
 def Edit.ifaces : Edit → List Nat
   | .setAccess i _ => [i]
+  | _ => []
+
+/-- the helper objects whose state an edit changes -/
+def Edit.attrs : Edit → List Nat
+  | .setAttr a _ => [a]
   | _ => []
 
 /-! ## well-formedness of a world (what the allocation counters mean) -/
@@ -321,23 +450,27 @@ structure WF (W : World) : Prop where
   syms_lt : ∀ t ∈ W.trees, ∀ s ∈ t.syms ++ t.tsyms ++ t.owned, s < W.nsym
   deps_lt : ∀ s d, d ∈ W.deps s → d < W.nsym
   iface_lt : ∀ s, W.iface s < W.nif
+  decl_lt : ∀ s, ∀ i ∈ (W.bounds s).ids ++ (W.init s).ids, i < W.nnode
 
 /-- executable version for concrete worlds (symbols `< nsym` only) -/
 def wfCheck (W : World) : Bool :=
   W.trees.all (fun t => t.ids.all (· < W.nnode) && (t.syms ++ t.tsyms ++ t.owned).all (· < W.nsym)) &&
-  (List.range W.nsym).all (fun s => (W.deps s).all (· < W.nsym) && decide (W.iface s < W.nif))
+  (List.range W.nsym).all (fun s => (W.deps s).all (· < W.nsym) && decide (W.iface s < W.nif) &&
+    ((W.bounds s).ids ++ (W.init s).ids).all (· < W.nnode))
 
 /-- no datatype inside the subtree uses a symbol declared inside the subtree: the side condition
 under which the pinned code is correct -/
 def NoSymbolInDatatype (W : World) (S : Forest) : Prop :=
-  (∀ s ∈ S.tsyms, s ∉ S.owned) ∧ (∀ s ∈ S.owned, ∀ d ∈ W.deps s, d ∉ S.owned)
+  (∀ s ∈ S.tsyms, s ∉ S.owned) ∧ (∀ s ∈ S.owned, ∀ d ∈ W.deps s, d ∉ S.owned) ∧
+  (∀ s ∈ S.owned, W.bounds s = .nil)
 
 /-- the interface objects that the copy of the subtree shares with the original -/
-def sharedIfaces (W : World) (S : Forest) : List Nat :=
-  (S.owned.filter (fun s => !W.freshIface s)).map W.iface
+def sharedIfaces (m : Mode) (W : World) (S : Forest) : List Nat :=
+  (S.owned.filter (fun s => !ownIface m W s)).map W.iface
 
 def noSymbolInDatatypeB (W : World) (S : Forest) : Bool :=
   S.tsyms.all (fun s => !S.owned.contains s) &&
-  S.owned.all (fun s => (W.deps s).all (fun d => !S.owned.contains d))
+  S.owned.all (fun s => (W.deps s).all (fun d => !S.owned.contains d)) &&
+  S.owned.all (fun s => (W.bounds s).ids.isEmpty)
 
 end C15
